@@ -195,7 +195,8 @@ def zombies (s : Sys) : Nat :=
   s.children.countP fun c => c.state.isAlive || c.changed
 
 def interp (useSys : Bool) (digits : List Nat) (prog : List Stmt) : String :=
-  let st := prog.foldl (fun st s => (st.stmt s).probe) { useSys := useSys, digits := digits }
+  let st0 : St := { useSys := useSys, digits := digits }
+  let st : St := prog.foldl (fun (st : St) (s : Stmt) => (st.stmt s).probe) st0
   let z := if useSys then zombies st.sys else 0
   " ".intercalate st.out.reverse ++ s!" st={st.status} z={z}"
 
